@@ -21,7 +21,9 @@ SPEC = dict(
              label="YarnTrace: random deep expression trees (depth <= 5) in random parenthesisation / spelling"),
         # the same expression nodes evaluated again after the HOST changed a variable (no set / declare in between)
         dict(family="expr", n=(60, 600), paths=(2, 4), calls=40, hostsets=True,
-             label="YarnTrace: expressions re-evaluated after host writes to the storer")],
+             label="YarnTrace: expressions re-evaluated after host writes to the storer"),
+        dict(family="hostloop", n=(60, 600), paths=(3, 5), calls=40, hostsets=True,
+             label="YarnTrace: a node run four times while only the host changes variables")],
     nontrivial=lambda c: True,
     rule="(1) ALL expression trees of depth <= 2 over the 14 binary and 2 unary operators with typed probe leaves (MC_Expr: 26,964 trees), each "
          "printed by the specification's precedence model with minimal parentheses, with full parentheses and with word spellings, evaluated "
